@@ -188,7 +188,12 @@ pub const RULE: &str = "states = positions of the bounded trees below the curate
 pub fn run(tier: Tier) -> i32 {
     let run = Arc::new(Run::new("C01", tier, COUNTERS));
     let oracle = Arc::new(C01 { full_triple: false });
-    let plan = standard_plan(tier, 4);
+    let mut plan = standard_plan(tier, 4);
+    if tier == Tier::Quick {
+        // every en-passant position with one enemy slider anywhere (pins of the capturer along rank,
+        // file and diagonals, discovered checks through the push), judged without children
+        plan.families.push((Box::new(crate::universe::EpFamily { extra: crate::universe::Extra::EnemySlider, pre_push: false }), 0));
+    }
     run_plan(&run, &oracle, &plan);
     // complete 64x64x5 legality sweep: every root, the children of every 4th root (thorough: everything
     // within 2 plies of every root), plus every 64th (quick: 2048th) member of the en-passant / castling / promotion families
